@@ -27,4 +27,7 @@ func IDs() []string {
 	return out
 }
 
-func init() { eng.AnchorHosts = anchorHosts }
+func init() {
+	eng.AnchorHosts = anchorHosts
+	eng.OrigFuncs, eng.AnchorCallers, eng.AnchorSigs, eng.AnchorPrints = origFuncs, anchorCallers, anchorSigs, anchorPrints
+}
